@@ -150,13 +150,23 @@ fn tamper(cx: &mut Cx, verifier: NodeId, key: Arc<KeyMat>, p: Presentation) {
     if p.revealed.len() >= 2 && p.revealed[0] != p.revealed[1] { let mut q = p.clone(); q.revealed.swap(0, 1); deliver(cx, verifier, q, "revealed_swap".into(), false); }
     if !p.revealed.is_empty() { let mut q = p.clone(); q.revealed.pop(); deliver(cx, verifier, q, "revealed_drop_last".into(), false); }
     // keys and bases
-    { let other = pool_key((key.idx + 1) % POOL_SIZE); let mut q = p.clone(); q.pk = other.pk.clone(); deliver(cx, verifier, q, "misroute_key".into(), false); }
+    if let Some(other) = other_pool_key(key.idx) { let mut q = p.clone(); q.pk = other.pk.clone(); deliver(cx, verifier, q, "misroute_key".into(), false); }
     // (a base only matters for hidden attributes and for revealed non-zero ones: a_i^0 = 1)
     let revealed_idx: Vec<usize> = (0..n).filter(|i| !p.hidden.contains(i)).collect();
     let bases_matter = !p.hidden.is_empty() || revealed_idx.iter().enumerate().any(|(k, _)| p.revealed[k] != 0);
     if bases_matter { let mut q = p.clone(); q.bases = key.bases2.0[..n].to_vec(); deliver(cx, verifier, q, "misroute_bases".into(), false); }
     { let mut q = p.clone(); q.cpk = key.cpk2.clone(); deliver(cx, verifier, q, "misroute_commitment_key".into(), false); }
     { let mut q = p.clone(); q.cpk.h += 1; deliver(cx, verifier, q, "commitment_key_h:+1".into(), false); }
+    // single-field edits of the signer key and of the commitment key (the same verifier thread has
+    // just verified the honest presentation under the unedited keys)
+    { let mut q = p.clone(); q.pk.b += 1; deliver(cx, verifier, q, "signer_key_b:+1".into(), false); }
+    { let mut q = p.clone(); q.pk.b = Integer::from(&q.pk.b * &q.pk.b) % &q.pk.N; deliver(cx, verifier, q, "signer_key_b:squared".into(), false); }
+    { let mut q = p.clone(); q.pk.c += 1; deliver(cx, verifier, q, "signer_key_c:+1".into(), false); }
+    { let mut q = p.clone(); q.pk.N += 2; deliver(cx, verifier, q, "signer_key_N:+2".into(), false); }
+    { let mut q = p.clone(); q.cpk.N += 2; deliver(cx, verifier, q, "commitment_key_N:+2".into(), false); }
+    if let Some(other) = other_pool_key(key.idx) { let mut q = p.clone(); q.cpk.N = other.pk.N.clone(); deliver(cx, verifier, q, "commitment_key_N:other_issuer".into(), false); }
+    { let mut q = p.clone(); q.cpk.g_bases[0] += 1; deliver(cx, verifier, q, "commitment_key_g0:+1".into(), false); }
+    if let Some(&h0) = p.hidden.first() { if h0 != 0 { let mut q = p.clone(); q.cpk.g_bases[h0] += 1; deliver(cx, verifier, q, "commitment_key_g_hidden:+1".into(), false); } }
     // hidden set and count
     if let Some(extra) = (0..n).find(|i| !p.hidden.contains(i)) { let mut q = p.clone(); q.hidden.push(extra); q.hidden.sort(); deliver(cx, verifier, q, "hidden_set:+1".into(), false); }
     if !p.hidden.is_empty() { let mut q = p.clone(); q.hidden.pop(); deliver(cx, verifier, q, "hidden_set:-1".into(), false); }
@@ -192,7 +202,7 @@ fn tamper(cx: &mut Cx, verifier: NodeId, key: Arc<KeyMat>, p: Presentation) {
     let slice = cx.ch.forced("leaf_slice", nsl.max(1), cx.run_index);
     cx.add("n.proof_leaves", ls.len() as u64);
     for k in (slice * per) as usize..(((slice + 1) * per) as usize).min(ls.len()) {
-        let ps = perturbations(&ls, k);
+        let ps = perturbations_mod(&ls, k, &p.pk.N);
         let pick = cx.ch.choose("perturbation", ps.len() as u64) as usize;
         let (pname, edits) = &ps[pick];
         let mut v2 = v.clone();
@@ -201,4 +211,6 @@ fn tamper(cx: &mut Cx, verifier: NodeId, key: Arc<KeyMat>, p: Presentation) {
         q.proof_json = v2.to_string();
         deliver(cx, verifier, q, format!("leaf:{}:{pname}", generic_path(&ls[k].0)), false);
     }
+    // ... and the honest presentation once more after everything the verifier has been shown
+    deliver(cx, verifier, p.clone(), "none:again_after_the_tampered_deliveries".into(), true);
 }
